@@ -21,3 +21,5 @@ void h_hex_val(void) { char c; url_hex_val(c); VP_CANARY(); }
 void h_clone_inline(void) { nng_url *d; nng_url *s; VP_HAVOC_GHOSTS(); nni_url_clone_inline(d, s); VP_CANARY(); }
 void h_url_clone(void) { nng_url **dp; nng_url *s; VP_HAVOC_GHOSTS(); nng_url_clone(dp, s); VP_CANARY(); }
 void h_parse_inner(void) { nng_url *u; char *raw; VP_HAVOC_GHOSTS(); nni_url_parse_inline_inner(u, raw); VP_CANARY(); }
+void h_canonify(void) { char *o; VP_HAVOC_GHOSTS(); nni_url_canonify_uri(o); VP_CANARY(); }
+void h_default_port(void) { char *sch; VP_HAVOC_GHOSTS(); nni_url_default_port(sch); VP_CANARY(); }
